@@ -54,10 +54,9 @@ func c05Cells(tier string) []Cell {
 	}
 
 	// (b) failure suppression window, sequential with virtual clock.
+	// Sequences of 4 in both tiers. (Length 5 was tried in the thorough tier: a worker holds every instance of a cell's
+	// 38 416 sequences until the cell ends, 4-6 GB per worker, and 16 of them exhaust the machine.)
 	maxLen := 4
-	if tier == "thorough" {
-		maxLen = 5
-	}
 
 	for front := 0; front < 3; front++ {
 		for _, ft := range []int{0, 5, -1} {
@@ -471,7 +470,7 @@ func init() {
 		ID: "C05", Title: "Build economy: SyncRead single-flight and cached failures suppress rebuilds",
 		Cells: c05Cells, Run: c05Run,
 		Rule: "(a,c) SyncRead bursts: 2-3 threads x 1-2 Gets on one key in state {absent, stale, too stale, fresh}, builder ok / failing, SU x FH x MS x 3 front-ends, all schedules within the bound: exactly one (successful / failing) build per burst; " +
-			"(b) all sequences of <=4 (quick) / <=5 (thorough; <=4 if the sequence starts with a clock step, ExpireAll, another key's failure or a failure-cache cleanup, or if FailedUpdateTTL is -1) operations over {Get(ok), Get(ok) whose builder result is nil, Get(fail), Get(fail) under an already cancelled caller context, Get(fail) under a caller TTL of 1s, Get(ok) under a caller TTL of 1h, Get(fail) of another key, a cleanup cycle of the internal failure cache, Get(ok) whose builder returns the cached value again (ObserveMutability on in some cells), Get(fail) whose builder error matches context.DeadlineExceeded, Advance 1s, Advance FT*0.95-1ns, Advance FT*1.05+1ns, ExpireAll(backend)} for FailedUpdateTTL {20s, 5s, -1} with the jitter answer at both extremes and the middle: " +
+			"(b) all sequences of <=4 operations (both tiers) over {Get(ok), Get(ok) whose builder result is nil, Get(fail), Get(fail) under an already cancelled caller context, Get(fail) under a caller TTL of 1s, Get(ok) under a caller TTL of 1h, Get(fail) of another key, a cleanup cycle of the internal failure cache, Get(ok) whose builder returns the cached value again (ObserveMutability on in some cells), Get(fail) whose builder error matches context.DeadlineExceeded, Advance 1s, Advance FT*0.95-1ns, Advance FT*1.05+1ns, ExpireAll(backend)} for FailedUpdateTTL {20s, 5s, -1} with the jitter answer at both extremes and the middle: " +
 			"no builder entry before t_fail + FT*(1-J/2), same error inside the window, rebuild on every Get with FT=-1",
 		Assumptions: []string{
 			"a burst happens at one virtual instant, so the built result stays fresh for its whole duration",
